@@ -114,8 +114,7 @@ def main():
         sh("git -C /repo worktree remove --force %s" % wt)
         shutil.rmtree(wt + "_b", ignore_errors=True)
         shutil.rmtree(wt + "_b2", ignore_errors=True)
-        sh("rm -rf %s/replay" % VERIF)
-        sh("cd %s && git checkout -- evidence" % VERIF)
+        shutil.rmtree(os.path.join(VERIF, "build", "out-" + __import__("hashlib").sha1(wt.encode()).hexdigest()[:8]), ignore_errors=True)
     meta["checks"] = results
     meta["caught_by"] = [c for c, r in results.items() if r["exit"] == 1]
     m = re.search(r"(?s)(patch ?%s|Patch %s|## %s)[^\n]*\n(.{0,1500})" % (n, n, n), notes)
